@@ -5,7 +5,10 @@
 # are listed in DEPENDS and produced on top of the patch they depend on.
 set -e
 S=${1:-/var/tmp/c09-fixed}; OUT=/verif/props/C09/findings
-cd $S
+# work in a separate worktree so that the scratch tree itself (VERIF_REPO of running checks) is never switched
+W=/var/tmp/c09-base
+[ -d $W ] || git -C $S worktree add -q --detach $W c09-base
+cd $W
 BASE=$(git rev-parse c09-base)
 declare -A DEPENDS=( [pem-footer-overlap-negative-length]=pem-unterminated-strstr [pem-empty-input-null-item]=pem-unterminated-strstr [pem-encrypted-partial-block-overflow]=pem-unterminated-strstr )
 names=$(git log --reverse --format='%s' $BASE..main | sed 's/ ([0-9]*)$//' | awk '!seen[$0]++')
@@ -24,5 +27,5 @@ for n in $names; do
   done
   if [ $ok = 1 ]; then git diff --cached $start > $OUT/$n.patch; git reset -q --hard; echo "ok   $n $(grep -c '^@@' $OUT/$n.patch) hunks${dep:+ (on top of $dep)}"; else echo "CONFLICT $n"; fail=1; fi
 done
-git checkout -q main; git branch -q -D tmp-patch
+git checkout -q --detach c09-base; git branch -q -D tmp-patch
 exit $fail
